@@ -6,7 +6,7 @@ ID = 'C18'
 FLAVORS = ['default', 'static']
 RULE = ('RERR lines (SCPI_ResultError on a given code and text; malloc build) and EQ lines (push + SYST:ERR?; malloc and static-heap builds): every code of the description table plus codes without entry; '
         'texts of every length 0..300 (quick: a stratified subset incl. 225..262) with 0..3 double quotes at random positions and at/around the position where the 255-character limit falls. '
-        'Non-trivial: texts containing a quote or reaching the limit; distinct = distinct lines.')
+        'Static-heap histories in which a long text wraps round the heap end with a quote at the limit. Non-trivial: texts containing a quote or reaching the limit; distinct = distinct lines.')
 MODELLED = 'SCPI_ResultError (parts loop, strnpbrk, running limit), SCPI_ErrorTranslate (generated table) are modelled in FmtModel.result_error / Glue.desc_of'
 ASSUMPTIONS = ['push(code, "") yields "description;" -- accepted as a prefix with empty text (DESIGN.md section 9)']
 
@@ -145,6 +145,23 @@ def streams(tier, rng):
             c = '|'.join(['EQ %d %d' % (cap, hs)] + ops)
             hc.append(c)
             hi[c] = ref
+        # a long text stored in two pieces of the circular heap (it wraps round the heap end), with a double quote at and
+        # around the character where the 255 limit falls
+        for code in (-113, 1234, -101):
+            d = tbl.get(code, fb)
+            budget = 255 - len(d) - 1
+            for F in (30, 40, 57):
+                for qpos in (budget - 3, budget - 2, budget - 1, budget, 100):
+                    for two in (False, True):
+                        t = bytearray(97 + (i % 26) for i in range(270))
+                        t[qpos] = 34
+                        if two:
+                            t[qpos - 1] = 34
+                        t = bytes(t)
+                        ops = ['P %d %s 0 0' % (code, (b'f' * F).hex()), 'P %d %s 0 0' % (code, b'x'.hex()), 'S', 'P %d %s 270 0' % (code, t.hex()), 'S', 'S', 'S']
+                        c = '|'.join(['EQ 8 300'] + ops)
+                        hc.append(c)
+                        hi[c] = [(3, (code, b'f' * F)), (5, (code, b'x')), (6, (code, t)), (7, (0, None))]
 
         def horacle(case, out, hi=hi, static=(flavor == 'static')):
             if out.startswith('X') or ' X' in out or case not in hi:
